@@ -132,6 +132,10 @@ impl FileSystem for OverlayFS {
 
     fn create_file(&self, path: &str) -> VfsResult<Box<dyn SeekAndWrite + Send>> {
         self.ensure_has_parent(path)?;
+        if self.exists(path)? && self.metadata(path)?.file_type == VfsFileType::Directory {
+            // a directory, possibly only in a lower layer which the upper layer cannot see
+            return Err(VfsErrorKind::Other("Not a file".into()).into());
+        }
         let result = self.write_path(path)?.create_file()?;
         let whiteout_path = self.whiteout_path(path)?;
         if whiteout_path.exists()? {
